@@ -249,6 +249,19 @@ def run_forms(c):
 
     forms["Collection(src,sens).getX()"] = (coll_both, ref1)
 
+    # observers given as a nested Collection tree: the sensor axis follows the tree (pre-order), also in the dataframe
+    sens3 = magpy.Sensor(pixel=pts - (0.4, 0.1, 0.3))
+    ref1c = fn(s1, pts - (0.4, 0.1, 0.3), squeeze=False)
+
+    def tree():
+        return magpy.Collection(magpy.Collection(magpy.Sensor(pixel=pts), magpy.Sensor(pixel=pts + (0.5, 0.5, 0.5))), magpy.Sensor(pixel=pts - (0.4, 0.1, 0.3)))
+
+    ref_tree = np.concatenate([ref1, ref1b, ref1c], axis=2)
+    forms["getX(src,nested-sensor-tree)"] = (lambda: fn(s1, tree(), squeeze=False), ref_tree)
+    forms["src.getX(nested-sensor-tree)"] = (lambda: getattr(s1, "get" + field)(tree(), squeeze=False), ref_tree)
+    forms["nested-sensor-tree.getX(src)"] = (lambda: getattr(tree(), "get" + field)(s1, squeeze=False), ref_tree)
+    forms["getX(src,[sens,nested-tree])"] = (lambda: fn(s1, [sens3, tree()], squeeze=False), np.concatenate([ref1c, ref_tree], axis=2))
+
     def df():
         d = fn([s1, s2], [sens, sens2], output="dataframe")
         cols = [field + k for k in "xyz"]
@@ -589,7 +602,7 @@ def run(tier, seed):
     nforms = 0
     for c, r in zip(cases, res):
         if c["part"] == "forms":
-            nforms += 13
+            nforms += 17
         if r is None:
             continue
         if isinstance(r, str) and r.startswith("HARNESS"):
